@@ -2,8 +2,71 @@ pub mod checker;
 pub mod crash;
 pub mod gsom;
 pub mod pop;
+pub mod restart;
 pub mod rl;
 pub mod structs;
 pub mod w1;
 pub mod w2;
 pub mod w3;
+
+use crate::coord::{CaseRecord, Scenario, ScenarioMeta, Tier};
+use serde_json::Value;
+
+/// Two scenario families deciding one property: one case in `every` belongs to `minor`, the others to `major`.
+pub struct Mixed {
+    pub major: Box<dyn Scenario>,
+    pub minor: Box<dyn Scenario>,
+    pub every: u64,
+    pub minor_kind: &'static str,
+}
+
+impl Mixed {
+    fn is_minor(&self, case_seed: u64) -> bool {
+        case_seed % self.every == 0
+    }
+}
+
+impl Scenario for Mixed {
+    fn prop(&self) -> &'static str {
+        self.major.prop()
+    }
+    fn cases(&self, tier: Tier) -> u64 {
+        self.major.cases(tier)
+    }
+    fn run_case(&self, case_seed: u64, tier: Tier) -> CaseRecord {
+        let mut rec = if self.is_minor(case_seed) { self.minor.run_case(case_seed, tier) } else { self.major.run_case(case_seed, tier) };
+        rec.count(if self.is_minor(case_seed) { "families.minor_cases" } else { "families.major_cases" }, 1);
+        rec
+    }
+    fn materialise(&self, case_seed: u64, tier: Tier) -> Value {
+        if self.is_minor(case_seed) {
+            self.minor.materialise(case_seed, tier)
+        } else {
+            self.major.materialise(case_seed, tier)
+        }
+    }
+    fn replay(&self, doc: &Value) -> CaseRecord {
+        if doc.get("kind").and_then(|k| k.as_str()) == Some(self.minor_kind) {
+            self.minor.replay(doc)
+        } else {
+            self.major.replay(doc)
+        }
+    }
+    fn minimise(&self, doc: Value, rule: &str) -> Value {
+        if doc.get("kind").and_then(|k| k.as_str()) == Some(self.minor_kind) {
+            self.minor.minimise(doc, rule)
+        } else {
+            self.major.minimise(doc, rule)
+        }
+    }
+    fn meta(&self) -> ScenarioMeta {
+        let (a, b) = (self.major.meta(), self.minor.meta());
+        ScenarioMeta {
+            level: a.level,
+            rule: format!("two case families. (1) {} (2) one case in {}: {}", a.rule, self.every, b.rule),
+            assumptions: a.assumptions.into_iter().chain(b.assumptions).collect(),
+            components_real: a.components_real.into_iter().chain(b.components_real).collect(),
+            components_stub: a.components_stub.into_iter().chain(b.components_stub.into_iter().filter(|x| !x.is_empty())).collect::<std::collections::BTreeSet<_>>().into_iter().collect(),
+        }
+    }
+}
